@@ -360,7 +360,7 @@ func (a *Attempt) OpenAllGates() {
 }
 
 func (a *Attempt) hook(point, dir, key string) {
-	a.W.Log.Add(Event{Kind: "hook", Att: a.ID, Dir: dir, S: point})
+	a.W.Log.Add(Event{Kind: "hook", Att: a.ID, Dir: dir, S: point, S2: key})
 	if rng := a.W.stress.Load(); rng != nil {
 		a.W.stMu.Lock()
 		v := rng.IntN(8)
